@@ -104,20 +104,22 @@ func needles(it secretItem) []needle {
 // Repaired classes are no longer listed, so that a leak of their kind is a violation again:
 // F31 (6ee5ae9: the debug record "loading TLS certificate" printed a data: URI given to
 // --tls-cert-file/--tls-key-file in full) and F44 (d35211c: loadRootCAs printed a --cacert-file
-// data: URI without PEM certificate in the fatal log line and the termination log).
+// data: URI without PEM certificate in the fatal log line and the termination log); F54 (a data: URI whose
+// scheme is spelled DATA: / Data: was taken for a file name and os.ReadFile's error printed it): such
+// spellings are accepted layouts of the serving cases (layout.go).
 func knownClass(c *Case, it secretItem, channel string) string {
 	flag := it.Flag
 	if c.Kind != "startfail" {
 		return ""
 	}
-	// PROPOSED class (not recorded: see report): an inline value that does not begin with the five bytes
-	// "data:" (white space in front of it, DATA:, Data:) is read as a file name by ReadFileOrBase64, and
-	// os.ReadFile's error - "open <name>: no such file or directory" / "file name too long" - carries the
-	// whole value into the 'fatal error exiting' record and the termination log. A different code path
-	// from F43 (no flag parser involved). Judged only once the class is recorded (see specFail).
+	// NOT a class of findings: a value that is no data: URI (layoutsFileName: white space or "./" in front of
+	// the scheme, another scheme) is a file name by definition; os.ReadFile's error names the file it cannot
+	// open - "open <name>: no such file or directory" / "file name too long" - in the 'fatal error exiting'
+	// record and the termination log. That is outside the property (it speaks about key material supplied
+	// inline as data: URIs): counted, not judged (see specFail).
 	if c.StartFault == "inline-unrecognised" && layoutKey(flag, it.Index) == inlineFaultKey(c) &&
-		(channel == "startup-log" || channel == "termination-log") {
-		return unrecognisedClass
+		isFileNameLayout(c.layoutOf(flag, it.Index)) && (channel == "startup-log" || channel == "termination-log") {
+		return fileNameLabel
 	}
 	// F43: a value that the flag's parser rejects is echoed with %q in the usage error: pflag's
 	// "invalid argument %q for %q flag" (printed by cobra on stderr, copied to /dev/termination-log
@@ -128,6 +130,23 @@ func knownClass(c *Case, it secretItem, channel string) string {
 		return "rejected-flag-value-echoed"
 	}
 	return ""
+}
+
+// attributed: long payloads share one RSA key per secret assignment (layout.go rsaKey), so --tls-key-file and
+// --mitm-cakey-file of a case can hold the SAME material; text found in the output is then attributed to the
+// first flag that holds it. When the value an inline-* fault sits in holds that very material, the finding is
+// about the faulted value (that is the one the start-up prints): it is judged as such.
+func attributed(c *Case, p *plan, it secretItem) secretItem {
+	key := inlineFaultKey(c)
+	if key == "" || layoutKey(it.Flag, it.Index) == key {
+		return it
+	}
+	for _, f := range p.Secrets {
+		if layoutKey(f.Flag, f.Index) == key && f.Secret == it.Secret {
+			return f
+		}
+	}
+	return it
 }
 
 func sliceFlag(flag string) bool { return flag == "credentials" || flag == "cacert-file" }
@@ -168,6 +187,10 @@ func channels(o *observation) []channelText {
 	for _, f := range o.Faults {
 		cs = append(cs, channelText{"error-response/fault/" + f.Label, f.Dump, true})
 	}
+	// the drawn history (history.go): every line except the records whose module runs in `errors` mode and
+	// whose own exchange was answered with 500 or more
+	cs = append(cs, channelText{"request-log/history", o.HistLog, true},
+		channelText{"history-http-dump", o.HistDumps, false})
 	return append(cs,
 		channelText{"fault-phase-log", o.FaultLog, true},
 		channelText{"fault-phase-log/racy", o.FaultLogRacy, true},
@@ -223,31 +246,29 @@ func scan(ctx *core.Ctx, c *Case, k int, o *observation, p *plan) {
 	scanChannels(ctx, c, k, channels(o), p)
 }
 
-// specFail is ctx.SpecFail, except that a finding of a class this scenario proposes but
-// known_findings.json does not record (yet) is counted instead of judged.
+// specFail is ctx.SpecFail, except that what a start-up prints about a value that is a file name by
+// definition (knownClass: fileNameLabel) is outside the property: counted under a neutral label.
 func specFail(ctx *core.Ctx, clause, class string, c *Case, impl, detail string) {
-	if class == unrecognisedClass && !classRecorded(ctx, class) {
-		ctx.Count("unjudged/proposed-class/" + class + "/" + strings.SplitN(clause, " emit the same ", 2)[0])
+	if class == fileNameLabel {
+		ctx.Count("outside-the-property/" + fileNameLabel + "/" + strings.SplitN(clause, " emit the same ", 2)[0])
 		return
 	}
+	noteFinding("spec", clause, class, c)
 	ctx.SpecFail(clause, class, c, impl, detail)
 }
 
-var (
-	recordedOnce sync.Once
-	recorded     map[string]bool
-)
-
-func classRecorded(ctx *core.Ctx, class string) bool {
-	recordedOnce.Do(func() {
-		recorded = map[string]bool{}
-		for _, f := range core.LoadKnown(ctx.Root) {
-			if f.Property == "C19" {
-				recorded[f.Class] = true
-			}
-		}
-	})
-	return recorded[class]
+// noteFinding lists every finding on stderr when C19_LIST_FINDINGS is set (development aid: the replay
+// file keeps the first eleven only).
+func noteFinding(kind, clause, class string, c *Case) {
+	if os.Getenv("C19_LIST_FINDINGS") == "" {
+		return
+	}
+	var ls []string
+	for _, k := range sortedKeys(c.Layouts) {
+		ls = append(ls, k+"="+c.Layouts[k])
+	}
+	fmt.Fprintf(os.Stderr, "finding: %s | %s | class=%q | case %s %s start_fault=%q log-http=%s layouts=%v\n",
+		kind, clause, class, c.Kind, c.ID, c.StartFault, strings.Join(c.logHTTPValues(), " "), ls)
 }
 
 func scanChannels(ctx *core.Ctx, c *Case, k int, chs []channelText, p *plan) {
@@ -303,10 +324,10 @@ func scanChannels(ctx *core.Ctx, c *Case, k int, chs []channelText, p *plan) {
 				if it.PEM != nil {
 					what = "data: payload"
 				}
-				specFail(ctx, "secret absent from "+ch.Name, knownClass(c, it, ch.Name), c,
+				specFail(ctx, "secret absent from "+ch.Name, knownClass(c, attributed(c, p, it), ch.Name), c,
 					snippet(ch.Text, at, len(n.Text)),
 					fmt.Sprintf("%s of --%s (given as %s, entry %d, secret assignment %d) appears in %s, encoding %s; log-level=%s log-format=%s log-http=%s%s",
-						what, it.Flag, sourceOf(c, it.Flag), it.Index, k, ch.Name, n.Enc, c.Level, c.Format, c.LogHTTP, startFaultNote(c)))
+						what, it.Flag, sourceOf(c, it.Flag), it.Index, k, ch.Name, n.Enc, c.Level, c.Format, strings.Join(c.logHTTPValues(), " "), startFaultNote(c)))
 				break // one finding per (secret, channel)
 			}
 		}
@@ -500,7 +521,7 @@ func compareTLSLoad(ctx *core.Ctx, c *Case, recs []record, p *plan, expected boo
 		switch {
 		case v == "":
 			return "unset"
-		case strings.HasPrefix(v, "data:"):
+		case isDataURI(v):
 			return "data"
 		}
 		return "path"
@@ -614,7 +635,7 @@ func leakClass(c *Case, channel, line string, p *plan) string {
 			hit = hit || strings.Contains(line, n.Text)
 		}
 		if hit {
-			cl := knownClass(c, it, channel)
+			cl := knownClass(c, attributed(c, p, it), channel)
 			if cl == "" {
 				return "" // a secret that no recorded class explains
 			}
@@ -627,7 +648,7 @@ func leakClass(c *Case, channel, line string, p *plan) string {
 	// a value that was echoed over several lines: the line holds a run of its text too short for a window
 	if key := inlineFaultKey(c); key != "" && c.StartFault == "inline-unrecognised" {
 		for _, it := range p.Secrets {
-			if layoutKey(it.Flag, it.Index) != key {
+			if layoutKey(it.Flag, it.Index) != key || !isFileNameLayout(c.layoutOf(it.Flag, it.Index)) {
 				continue
 			}
 			for _, tok := range strings.FieldsFunc(line, func(r rune) bool { return r > 0x7f || !isB64Byte(byte(r)) }) {
@@ -737,6 +758,14 @@ func diffRuns(ctx *core.Ctx, c *Case, oa, ob *observation, pa, pb *plan) {
 		{"error-response/api-401", oa.API401.Dump, ob.API401.Dump},
 		{"fault-phase-log", oa.FaultLog, ob.FaultLog},
 	}
+	if sameHistory(oa.History, ob.History) {
+		ps = append(ps, pair{"request-log/history", oa.HistLog, ob.HistLog})
+	} else {
+		// a client of one run saw another status than its twin (a timeout on a loaded machine, the race
+		// inside the api-5xx pair): the runs did not take the same path
+		ctx.Count("inconclusive/two-run-environment-differed")
+		ctx.Count("inconclusive/two-run-environment-differed/history")
+	}
 	for i, fa := range oa.Faults {
 		if i < len(ob.Faults) && fa.Deterministic && ob.Faults[i].Label == fa.Label {
 			// the proxy's own error texts name ports, whose number of digits varies
@@ -748,10 +777,10 @@ func diffRuns(ctx *core.Ctx, c *Case, oa, ob *observation, pa, pb *plan) {
 	// while the next phase already runs), so a line counts as different only if it occurs nowhere
 	// in the other run's log.
 	wholeA, wholeB := map[string]bool{}, map[string]bool{}
-	for _, l := range sortedLines(canonical(oa.Startup+oa.ReqLog+oa.FailLog+oa.FaultLog+oa.FaultLogRacy+oa.FaultDumps, oa, g)) {
+	for _, l := range sortedLines(canonical(oa.Startup+oa.ReqLog+oa.FailLog+oa.FaultLog+oa.FaultLogRacy+oa.FaultDumps+oa.HistLog+oa.HistDumps, oa, g)) {
 		wholeA[l] = true
 	}
-	for _, l := range sortedLines(canonical(ob.Startup+ob.ReqLog+ob.FailLog+ob.FaultLog+ob.FaultLogRacy+ob.FaultDumps, ob, g)) {
+	for _, l := range sortedLines(canonical(ob.Startup+ob.ReqLog+ob.FailLog+ob.FaultLog+ob.FaultLogRacy+ob.FaultDumps+ob.HistLog+ob.HistDumps, ob, g)) {
 		wholeB[l] = true
 	}
 	drop := func(ls []string, other map[string]bool) []string {
@@ -779,7 +808,7 @@ func diffRuns(ctx *core.Ctx, c *Case, oa, ob *observation, pa, pb *plan) {
 		}
 		la, lb := sortedLines(canonical(p.a, oa, g)), sortedLines(canonical(p.b, ob, g))
 		onlyA, onlyB := diffLines(la, lb)
-		if p.name == "startup-log" || p.name == "request-log" || p.name == "fault-phase-log" {
+		if p.name == "startup-log" || p.name == "request-log" || p.name == "fault-phase-log" || p.name == "request-log/history" {
 			onlyA, onlyB = drop(onlyA, wholeB), drop(onlyB, wholeA)
 		}
 		// group the differing lines by the recorded class that explains them
@@ -870,6 +899,7 @@ func checkCase(ctx *core.Ctx, c *Case) {
 		scan(ctx, c, k, o, plans[k])
 		if o.Problem == "" {
 			countFaults(ctx, c, o, plans[k])
+			countHistory(ctx, c, o)
 		}
 		if o.SlowStop {
 			ctx.Count("killed-20s-after-SIGTERM")
@@ -881,6 +911,7 @@ func checkCase(ctx *core.Ctx, c *Case) {
 		}
 		if o.Problem != "" {
 			served = false
+			noteFinding("crash", "the binary starts with a valid configuration and serves", "", c)
 			ctx.Crash("the binary starts with a valid configuration and serves", "", c,
 				o.Problem+"\nstderr: "+short(o.Stderr, 600)+"\nlog: "+short(tail(o.Startup, 800), 900))
 			continue
@@ -919,6 +950,10 @@ func checkCase(ctx *core.Ctx, c *Case) {
 	ctx.Count("log-level/" + c.Level)
 	ctx.Count("log-format/" + c.Format)
 	ctx.Count("log-http/" + c.LogHTTP)
+	ctx.Count("log-http-per-module/proxy=" + c.LogHTTP + ",api=" + c.apiMode())
+	if c.LogHTTPSpec != nil {
+		ctx.Count("log-http-form/" + c.LogHTTPSpec.Form + "/" + c.LogHTTPSpec.Source)
+	}
 	ctx.Count("log-to/" + c.LogTo)
 	ctx.Count("upstream/" + c.Upstream)
 	ctx.Count(fmt.Sprintf("secrets-per-case/%d", nsec))
